@@ -190,6 +190,7 @@ struct RoundCfg {
   bool bitset = true, async = false, cont = false;
   bool denseSet = false; // Reduce_set while every proxy's value travels: identical values at all proxies only
   unsigned density = 0, waves = 1;
+  bool consume = false;  // add continuation: the app consumed the values it read (kcore) instead of reset_mirrorField (pagerank)
   uint64_t seed = 0;
 };
 
@@ -371,7 +372,7 @@ struct Obs {
   uint64_t cross_host_updates = 0, unflagged_writes = 0;
   uint64_t net_msgs = 0, net_bytes = 0;
   uint64_t lists[5] = {0, 0, 0, 0, 0}; // mirror lists by the mode the automatic choice selects for their flagged share
-  uint64_t reset_mirror_calls = 0, untouched_add_mirrors = 0;
+  uint64_t reset_mirror_calls = 0, untouched_add_mirrors = 0, consume_rounds = 0, delayed_syncs = 0;
 };
 
 } // namespace
@@ -379,6 +380,12 @@ struct Obs {
 int main(int argc, char** argv) {
   Harness H("C18", argc, argv);
   std::string statPath;
+  // the end event of the last case is written after the runtime is torn down: Gluon's own MetadataMode statistics
+  // (which wire encoding each extracted message used) only become readable then
+  long pendingCase = -1;
+  std::string pendingSig;
+  bool pendingNontrivial = false;
+  J pendingObs;
   {
     galois::DistMemSys G;
     auto& net = galois::runtime::getSystemNetworkInterface();
@@ -396,6 +403,8 @@ int main(int argc, char** argv) {
       sweepScratch(dir);
     }
     const long ppid        = (long)getppid(); // mpirun: the same on every rank
+    statPath               = dir + "/c18-" + std::to_string(ppid) + "-stats.txt";
+    galois::runtime::setStatFile(statPath);
     const long onlyScheme  = H.paramInt("scheme", -1);
     const long onlyDir     = H.paramInt("dir", -1);
     const long onlyMode    = H.paramInt("mode", -1);
@@ -410,9 +419,11 @@ int main(int argc, char** argv) {
     for (long k = H.firstCase(); k < H.endCase(); ++k) {
       Rng rng(mix(H.caseSeed(k), (uint64_t)salt));
       // ---------------------------------------------------------------- case parameters (same on all ranks)
-      unsigned scheme = (unsigned)rng.below(streaming ? NUM_SCHEMES : S_GINGER_O);
-      if (rng.chance(1, 3)) // the schemes with structure-specific skipping get more weight
-        scheme = (unsigned)rng.pick({(int)S_OEC, (int)S_IEC, (int)S_CVC, (int)S_CVC_IEC, (int)S_HOVC, (int)S_HIVC});
+      // the six schemes with structure-specific skipping in Gluon; the streaming policies (slow master assignment:
+      // 100 state rounds) get one case in six
+      unsigned scheme = (unsigned)rng.below(S_GINGER_O);
+      if (streaming && rng.chance(1, 6))
+        scheme = S_GINGER_O + (unsigned)rng.below(NUM_SCHEMES - S_GINGER_O);
       if (onlyScheme >= 0)
         scheme = (unsigned)onlyScheme;
       unsigned gdir = (unsigned)rng.pick({(int)D_OUT, (int)D_OUT, (int)D_IN, (int)D_IN, (int)D_SYM});
@@ -440,12 +451,14 @@ int main(int argc, char** argv) {
         shape = (ref::Shape)onlyShape;
       if (onlyN >= 0)
         n = (uint64_t)onlyN;
-      unsigned nrounds = 2 + (unsigned)rng.below(H.thorough ? 7 : 4);
+      unsigned nrounds = 3 + (unsigned)rng.below(H.thorough ? 10 : 6);
       uint64_t rseed   = rng.next();
 
       ref::RefGraph G0 = ref::gen_shape(gseed, shape, n);
-      if (G0.numNodes < np) { // fewer nodes than hosts is C19's subject, not ours
-        G0 = ref::gen_shape(gseed, ref::Shape::Cycle, np + 1);
+      // inputs the partitioner itself does not survive are C19's subject, not ours: fewer nodes than hosts;
+      // an edge-less graph with a streaming policy (Fennel/Ginger/Sugar score is NaN when the graph has 0 edges)
+      if (G0.numNodes < np || (G0.numEdges() == 0 && scheme >= S_GINGER_O)) {
+        G0    = ref::gen_shape(gseed, ref::Shape::Cycle, std::max<uint64_t>(np + 1, std::min<uint64_t>(n, 300)));
         shape = ref::Shape::Cycle;
       }
       if (gdir == D_SYM) {
@@ -528,6 +541,7 @@ int main(int argc, char** argv) {
 
         RoundCfg prev;
         bool prevOK = false;
+        std::vector<uint64_t> lastExpected; // [gid * words + i] of the previous round (all ranks)
         double t3   = now_s();
         for (unsigned rd = 0; rd < nrounds && structureOK; ++rd) {
           // -------------------------------------------------------------- round configuration
@@ -582,9 +596,28 @@ int main(int argc, char** argv) {
               F.store(*g, l, v.w);
             }
           } else if (F.red == R_ADD) {
-            // what pagerank does every round: mirrors back to the reduction identity
-            F.resetMirrors(sub);
-            ++O.reset_mirror_calls;
+            c.consume = rr.chance(1, 2);
+            if (!c.consume) {
+              // what pagerank does every round: mirrors back to the reduction identity
+              F.resetMirrors(sub);
+              ++O.reset_mirror_calls;
+            } else {
+              // what kcore does: the operator consumes (zeroes) the value at every proxy it reads; mirrors it does
+              // not read are at the identity because the reduce extraction reset them (SyncStructures reset()).
+              // A mirror that is not readable but got the broadcast holds the reduced value: vertex-cut apps iterate
+              // it too, so it is consumed as well. Anything else is left as the library left it.
+              Val id = identityOf(F);
+              for (uint32_t l = 0; l < nl; ++l) {
+                const Proxy& p = T.host[g_rank][l];
+                Val cur, ex;
+                F.load(*g, l, cur.w);
+                for (unsigned i = 0; i < F.words; ++i)
+                  ex.w[i] = lastExpected[p.gid * F.words + i];
+                if ((p.flags & PF_MASTER) || readable(p.flags, c.R) || cur.eq(ex, F.words))
+                  F.store(*g, l, id.w);
+              }
+              ++O.consume_rounds;
+            }
           }
           for (uint32_t l = 0; l < nl; ++l)
             F.load(*g, l, rec[l].pre.w);
@@ -664,6 +697,10 @@ int main(int argc, char** argv) {
                 galois::no_stats());
           };
 
+          // message arrival order between hosts: one host enters the sync late
+          unsigned delayUs = rr.chance(1, 3) ? (unsigned)rr.pick({200, 1000, 3000}) : 0, delayHost = (unsigned)rr.below(np);
+          if (delayUs)
+            ++O.delayed_syncs;
           unsigned long msgs0 = net.reportSendMsgs(), bytes0 = net.reportSendBytes();
           unsigned iterations = 0;
           if (!c.async) {
@@ -682,6 +719,8 @@ int main(int argc, char** argv) {
               }
             }
             progress();
+            if (delayUs && (unsigned)g_rank == delayHost)
+              sleep_us(delayUs);
             F.sync(sub, c.W, c.R, c.bitset, false, loop);
             ++O.syncs;
           } else {
@@ -694,6 +733,8 @@ int main(int argc, char** argv) {
                 doWrites(iterations);
                 dga += 1;
               }
+              if (delayUs && (unsigned)g_rank == delayHost && (iterations & 1))
+                sleep_us(delayUs / 4);
               F.sync(sub, c.W, c.R, true, true, loop);
               ++iterations;
               ++O.async_sync_calls;
@@ -732,6 +773,7 @@ int main(int argc, char** argv) {
 
           // -------------------------------------------------------------- reference oracle (rank 0)
           int verdict = 1;
+          lastExpected.assign((size_t)N * words, 0);
           if (log) {
             auto recOf = [&](unsigned h, uint32_t l) {
               Rec r;
@@ -762,7 +804,7 @@ int main(int argc, char** argv) {
                   if (!okPre)
                     die("pre-state not established at gid " + std::to_string(gid));
                 } else if (i > 0 && F.red == R_ADD) {
-                  if (!r.pre.eq(identityOf(F), words)) { // reset_mirrorField<Reduce_add_...>() did not do what its name says
+                  if (!c.consume && !r.pre.eq(identityOf(F), words)) { // reset_mirrorField<Reduce_add_...>() did not do what its name says
                     verdict = 0;
                     if (resetReported++ == 0)
                       H.violation("C18:reset_mirrorField:mirror-not-identity",
@@ -786,6 +828,8 @@ int main(int argc, char** argv) {
                     ++O.unflagged_writes;
                 }
               }
+              for (unsigned i = 0; i < words; ++i)
+                lastExpected[gid * words + i] = expected.w[i];
               O.writes += nw;
               if (contributors) {
                 ++O.nodes_written;
@@ -851,6 +895,7 @@ int main(int argc, char** argv) {
             }
           }
           MPI_Bcast(&verdict, 1, MPI_INT, 0, g_comm);
+          MPI_Bcast(lastExpected.data(), (int)lastExpected.size(), MPI_UINT64_T, 0, g_comm);
           ++O.rounds;
           if (c.cont)
             ++O.cont_rounds;
@@ -859,7 +904,7 @@ int main(int argc, char** argv) {
           prev   = c;
           prevOK = verdict == 1;
           roundSig += std::string(rd ? "," : "") + F.name + "." + "sda"[c.W] + "sda"[c.R] + (c.bitset ? "b" : "n") +
-                      (c.async ? "A" : "") + (c.cont ? "c" : "") + "." + dnName(c.density);
+                      (c.async ? "A" : "") + (c.cont ? (c.consume ? "k" : "c") : "") + "." + dnName(c.density);
           progress();
         }
         tRounds = now_s() - t3;
@@ -885,7 +930,7 @@ int main(int argc, char** argv) {
             .kv("unmarked_writes", O.unflagged_writes).kv("nodes_written", O.nodes_written)
             .kv("multi_contribution_nodes", O.multi_contrib_nodes).kv("cross_host_updates", O.cross_host_updates)
             .kv("rank0_net_msgs", O.net_msgs).kv("rank0_net_bytes", O.net_bytes)
-            .kv("reset_mirrorField_calls", O.reset_mirror_calls).kv("untouched_add_mirrors_at_identity", O.untouched_add_mirrors).kv("mirror_proxies", totalMirrors)
+            .kv("reset_mirrorField_calls", O.reset_mirror_calls).kv("add_consume_rounds", O.consume_rounds).kv("delayed_host_syncs", O.delayed_syncs).kv("untouched_add_mirrors_at_identity", O.untouched_add_mirrors).kv("mirror_proxies", totalMirrors)
             .kv(("rounds_mode_" + std::string(modeName(mode))).c_str(), O.rounds)
             .kv("rank0_auto_lists_none", O.lists[0]).kv("rank0_auto_lists_bitset", O.lists[1])
             .kv("rank0_auto_lists_offsets", O.lists[2]).kv("rank0_auto_lists_dense", O.lists[4])
@@ -894,11 +939,46 @@ int main(int argc, char** argv) {
             .kv((std::string("cases_policy_") + policyName(pc.policy)).c_str(), 1)
             .kv("cases_agnostic", (int)agnostic).kv("partition_wall_s", tPart).kv("substrate_wall_s", tSub)
             .kv("rounds_wall_s", tRounds);
-        H.end(k, sig, nontrivial, o.str());
+        if (k + 1 == H.endCase()) {
+          pendingCase       = k;
+          pendingSig        = sig;
+          pendingNontrivial = nontrivial;
+          pendingObs        = o;
+        } else
+          H.end(k, sig, nontrivial, o.str());
       }
     }
     MPI_Barrier(g_comm);
     MPI_Comm_free(&g_comm);
+  }
+  if (pendingCase >= 0) {
+    // STAT, 0, Gluon, ReduceMetadataMode_<DataCommMode>_c18_<field>_0, HOST_0, <messages extracted by host 0>
+    uint64_t built[2][5] = {{0, 0, 0, 0, 0}, {0, 0, 0, 0, 0}};
+    if (FILE* f = fopen(statPath.c_str(), "r")) {
+      char line[1024];
+      while (fgets(line, sizeof line, f)) {
+        const char* p;
+        int ph = 0;
+        if ((p = strstr(line, "ReduceMetadataMode_")))
+          p += 19;
+        else if ((p = strstr(line, "BroadcastMetadataMode_"))) {
+          p += 22;
+          ph = 1;
+        } else
+          continue;
+        int m            = atoi(p);
+        const char* last = strrchr(line, ',');
+        if (m >= 0 && m < 5 && last)
+          built[ph][m] += strtoull(last + 1, nullptr, 10);
+      }
+      fclose(f);
+      unlink(statPath.c_str());
+    }
+    static const char* mn[] = {"none", "bitset", "offsets", "gids", "dense"};
+    for (int ph = 0; ph < 2; ++ph)
+      for (int m = 0; m < 5; ++m)
+        pendingObs.kv((std::string("rank0_built_") + (ph ? "broadcast_" : "reduce_") + mn[m]).c_str(), built[ph][m]);
+    H.end(pendingCase, pendingSig, pendingNontrivial, pendingObs.str());
   }
   return 0;
 }
